@@ -34,7 +34,7 @@ func runC11(c *Ctx) {
 	if signOut != nil && clear != nil && storeClear != nil && redirect != nil {
 		n := 0
 		c.Walk(rule, signOut, func(p *walk.Path) {
-			for _, rd := range p.Find(walk.Static(redirect), p.End()) {
+			for _, rd := range p.FindTop(walk.Static(redirect), p.End()) {
 				n++
 				key := "redirect|" + fnKey(signOut)
 				if _, ok := Has(p, rd.Idx, Need{M: walk.Or(walk.Static(clear), walk.Invoke(c.P, storeClear)), Idx: -1, Out: ErrNil}); ok {
